@@ -8,7 +8,20 @@ use mc_drivers::plist_entry_model;
 use pkgsrc::plist::{Plist, PlistEntry};
 use serde_json::{json, Value};
 
+/// A TAB directly after a command word ("@cwd\t/x"): the statement calls TAB a blank but does not
+/// say whether it ends the command word.  Such texts are judged by self-consistency only.
+fn tab_ends_command(text: &[u8]) -> bool {
+    text.split(|c| *c == b'\n').any(|l| {
+        let l = &l[l.iter().position(|b| !matches!(*b, b' ' | b'\t')).unwrap_or(l.len())..];
+        l.first() == Some(&b'@') && l.iter().position(|b| *b == b'\t').map(|t| t < l.iter().position(|b| *b == b' ').unwrap_or(l.len())).unwrap_or(false)
+    })
+}
+
 fn check_line(t: &mut Tally, line: &[u8]) {
+    if tab_ends_command(line) {
+        check_text_self(t, line);
+        return;
+    }
     t.evals += 1;
     t.validated += 1;
     let want = mp::parse_line(line);
@@ -21,6 +34,10 @@ fn check_line(t: &mut Tally, line: &[u8]) {
 }
 
 fn check_text(t: &mut Tally, text: &[u8]) {
+    if tab_ends_command(text) {
+        check_text_self(t, text);
+        return;
+    }
     t.evals += 1;
     t.validated += 1;
     let want = mp::parse(text);
@@ -157,7 +174,7 @@ fn line_alphabet() -> Vec<Vec<u8>> {
         v.push(format!("{} arg", &cmd[..cmd.len() - 1]).into_bytes());
         v.push([cmd.as_bytes(), b"\xff arg"].concat());
     }
-    for l in ["@commentary x", "@displayname y", "@foo", "@foo bar", "@", "@ cwd", "@cwd\t/x", "@CWD /x", "@cwdx /x", "a", "bin/x y", " lead", "+F", "x@y", "\u{e9}", "", " ", "\t "] {
+    for l in ["@commentary x", "@displayname y", "@foo", "@foo bar", "@", "@ cwd", "@CWD /x", "@cwdx /x", "a", "bin/x y", " lead", "+F", "x@y", "\u{e9}", "", " ", "\t "] {
         v.push(l.as_bytes().to_vec());
     }
     v.push(b"\xf8".to_vec());
@@ -256,7 +273,7 @@ fn main() {
     {
         let mut t = Tally::new();
         let mut n = 0;
-        for b in 1u16..=255 {
+        for b in 0u16..=255 {
             let b = b as u8;
             // LF ends a line; VT FF CR 0x85 0xA0 are bytes of which the statement does not say whether they are blanks
             if [b'\n', 0x0b, 0x0c, 0x0d, 0x85, 0xa0].contains(&b) {
@@ -275,6 +292,42 @@ fn main() {
             }
         }
         run.bound(format!("byte sweep: {} byte values in nine line positions", n));
+        run.merge(t);
+    }
+    // the bytes VT FF CR 0x85 0xA0 *after* the first solid byte of a file name or argument are
+    // not ambiguous: "stripped only of leading blanks and otherwise preserved exactly"
+    {
+        let mut t = Tally::new();
+        for b in AMBIGUOUS {
+            let mut lines: Vec<Vec<u8>> = vec![
+                vec![b'x', b], vec![b'x', b, b'y'], [b"bin/foo".as_slice(), &[b]].concat(), [b"f ".as_slice(), &[b]].concat(),
+            ];
+            for (cmd, _, _) in mp::COMMANDS.iter() {
+                lines.push([cmd.as_bytes(), b" x", &[b]].concat());
+                lines.push([cmd.as_bytes(), b" x", &[b], b"y"].concat());
+                lines.push([cmd.as_bytes(), b" /a/b ", &[b]].concat());
+            }
+            for line in lines {
+                t.states += 1;
+                check_line(&mut t, &line);
+                check_text(&mut t, &[b"a\n".as_slice(), &line, b"\nb\n"].concat());
+                check_text(&mut t, &[line.as_slice(), b"\n"].concat());
+            }
+        }
+        // every command with the five argument shapes (blank only, trailing blank, several
+        // blanks, UTF-8, not UTF-8), alone and between two other lines
+        for (cmd, _, _) in mp::COMMANDS.iter() {
+            let shapes: Vec<Vec<u8>> = vec![
+                format!("{} ", cmd).into_bytes(), format!("{}  \t", cmd).into_bytes(), format!("{}   two  words ", cmd).into_bytes(), format!("{} \u{e9}\u{20ac}", cmd).into_bytes(),
+                [cmd.as_bytes(), b" \xf8x"].concat(), [cmd.as_bytes(), b" \0"].concat(), [cmd.as_bytes(), b" a\0b"].concat(), format!("{} preserve", cmd).into_bytes(), format!("{} @cwd /x", cmd).into_bytes(),
+            ];
+            for line in shapes {
+                t.states += 1;
+                check_line(&mut t, &line);
+                check_text(&mut t, &[b"@cwd /p\n".as_slice(), &line, b"\nbin/x\n"].concat());
+                check_text(&mut t, &line);
+            }
+        }
         run.merge(t);
     }
     // the ambiguous bytes (VT FF CR 0x85 0xA0) by self-consistency: every byte string of length
